@@ -11,6 +11,8 @@
 #   {'kind': 'tiow_all', 'enc', 'data', 'reads': [..]}   every partition through io.TextIOWrapper(raw, encoding=enc) over a raw
 #        io.RawIOBase with short reads (directly and behind io.BufferedReader, the two ways rbql_csv.encode_input_stream wraps a
 #        stream), read whole / by read(k): the list of DISTINCT outcomes, each with the first (pieces, variant, read size)
+#   {'kind': 'bytes_stream', 'via': 'bytesio' | 'file', 'data', 'encoding', cfg..}   CSVRecordIterator over io.BytesIO(data) / a real file
+#        opened 'rb' (TextIOWrapper then cuts the bytes itself, at multiples of its 8192-byte chunk): one outcome
 # pendingcr and the pending bytes of the inner decoder are read with getstate() (documented API of both objects).
 import codecs
 import io
@@ -105,8 +107,26 @@ def tiow_all(c):
     return seen
 
 
+def bytes_stream(c):
+    data = bytes(c['data'])
+    if c['via'] == 'bytesio':
+        return base.observe(io.BytesIO(data), c['encoding'], c, c.get('cs'))
+    import os
+    import tempfile
+    fd, path = tempfile.mkstemp(prefix='c12tl_', suffix='.csv', dir='.')
+    try:
+        with os.fdopen(fd, 'wb') as f:
+            f.write(data)
+        with open(path, 'rb') as f:
+            return base.observe(f, c['encoding'], c, c.get('cs'))
+    finally:
+        os.remove(path)
+
+
 def run_case(c):
     kind = c['kind']
+    if kind == 'bytes_stream':
+        return bytes_stream(c)
     if kind == 'dec_all':
         return dec_all(c)
     if kind == 'dec_one':
